@@ -129,13 +129,18 @@ func (h *ConsistentHash) Remove(node any) {
 
 	for i := 0; i < h.replicas; i++ {
 		hash := h.hashFunc([]byte(nodeRepr + strconv.Itoa(i)))
+		if !h.removeRingNode(hash, nodeRepr) {
+			// 此节点在该位置上没有虚拟节点（副本数小于 h.replicas），
+			// 该位置可能属于其他节点，不能从 keys 中删除。
+			continue
+		}
+
 		index := sort.Search(len(h.keys), func(i int) bool {
 			return h.keys[i] >= hash
 		})
 		if index < len(h.keys) && h.keys[index] == hash {
 			h.keys = append(h.keys[:index], h.keys[index+1:]...)
 		}
-		h.removeRingNode(hash, nodeRepr)
 	}
 
 	h.removeNode(nodeRepr)
@@ -154,7 +159,8 @@ func (h *ConsistentHash) containsNode(nodeRepr string) bool {
 	return ok
 }
 
-func (h *ConsistentHash) removeRingNode(hash uint64, nodeRepr string) {
+// removeRingNode 从给定位置移除节点，并返回该位置上是否有此节点。
+func (h *ConsistentHash) removeRingNode(hash uint64, nodeRepr string) (removed bool) {
 	if nodes, ok := h.ring[hash]; ok {
 		newNodes := nodes[:0]
 		for _, x := range nodes {
@@ -162,12 +168,15 @@ func (h *ConsistentHash) removeRingNode(hash uint64, nodeRepr string) {
 				newNodes = append(newNodes, x)
 			}
 		}
+		removed = len(newNodes) < len(nodes)
 		if len(newNodes) > 0 {
 			h.ring[hash] = newNodes
 		} else {
 			delete(h.ring, hash)
 		}
 	}
+
+	return removed
 }
 
 func repr(node any) string {
